@@ -16,18 +16,21 @@ import (
 	"encoding/binary"
 	"fmt"
 	"sort"
+	"strings"
 	"time"
 
 	"github.com/idena-network/idena-go/blockchain/attachments"
 	"github.com/idena-network/idena-go/blockchain/types"
 	"github.com/idena-network/idena-go/blockchain/validation"
 	"github.com/idena-network/idena-go/common"
+	"github.com/idena-network/idena-go/consensus"
 	"github.com/idena-network/idena-go/core/flip"
 	"github.com/idena-network/idena-go/core/state"
 	"github.com/idena-network/idena-go/crypto"
 	"github.com/idena-network/idena-go/crypto/ecies"
 	"github.com/idena-network/idena-go/crypto/vrf/p256"
 	"github.com/idena-network/idena-go/verifutil"
+	dbm "github.com/tendermint/tm-db"
 )
 
 // NetProfile says how submitted transactions reach one replica's mempool.
@@ -61,8 +64,14 @@ type EpochPlan struct {
 	Epoch     uint16
 	Truth     map[string]types.Answer // cid -> correct answer
 	Bad       map[string]bool         // cid -> deserves a report
-	Cands     []common.Address        // ceremony candidates in lottery order (shard 1)
-	CandIdx   map[common.Address]int
+	Cands     []common.Address        // ceremony candidates in lottery order, shard after shard
+	CandIdx   map[common.Address]int  // index in the candidate list of the OWN shard (what evidence bitmaps index)
+	NShards   int                     // shards of the ceremony's candidate table
+	ShardOf   map[common.Address]common.ShardId
+	CandsBy   map[common.ShardId][]common.Address // the ceremony's own per-shard candidate list
+	FlipsBy   map[common.ShardId][][]byte
+	EvMarked  map[common.Address]map[common.Address]bool // evidence sender -> candidates of its shard whose bit it set (harness' own record of the payload)
+	Planted   map[common.Address]bool                    // candidates made to commit too late to be seen (multi-shard epochs)
 	NonCands  []common.Address
 	Flips     [][]byte
 	ShortIdx  map[common.Address][]int
@@ -103,7 +112,18 @@ type CeremonySim struct {
 	Included    map[string]int
 	Debug       bool
 	dbgFlips    map[common.Address][]string
+	// multi-shard epochs
+	EvidenceDiscipline int // 0 = default mix; else percentage of evidence-capable candidates that are switched back to an honest map
+	PlantUnseen        int // per shard, up to this many fully participating candidates commit their answers hash only in the long session
+	// reorganisation of answers (see answersReorg)
+	Reorg         *ReorgPlan
+	OnReorged     func(rp *ReorgPlan)
+	forceProposer *Replica
+	CountPrefix   string
 }
+
+// count adds to a coverage counter of this simulation (prefixed for jobs that keep their own floors).
+func (s *CeremonySim) count(name string, n int) { s.Rep.Count(s.CountPrefix+name, n) }
 
 func NewCeremonySim(w *World, r *verifutil.Rng, rep *verifutil.Report) *CeremonySim {
 	s := &CeremonySim{W: w, R: r, Rep: rep, Profiles: map[*Replica]*NetProfile{}, queues: map[*Replica][]delayedTx{}, Included: map[string]int{},
@@ -161,7 +181,7 @@ func (s *CeremonySim) deliver(r *Replica, raw []byte) error {
 	r.enter()
 	err := r.TxPool.AddExternalTxs(validation.InboundTx, tx)
 	if err != nil && s.Debug {
-		s.Rep.Count("dbg_deliver_"+TxName(tx.Type)+"_"+ErrClass(err), 1)
+		s.count("dbg_deliver_"+TxName(tx.Type)+"_"+ErrClass(err), 1)
 	}
 	return err
 }
@@ -233,7 +253,13 @@ func (s *CeremonySim) Step(dt time.Duration) *BlockResult {
 		now = ht
 	}
 	setClock(now.Add(dt))
-	res := w.NextBlock(0)
+	var res *BlockResult
+	if p := s.forceProposer; p != nil && p.Alive && p.CanPropose() {
+		res = w.NextBlockBy(p)
+	} else {
+		res = w.NextBlock(0)
+	}
+	s.forceProposer = nil
 	s.blockNo++
 	if len(res.Errs) > 0 {
 		s.Stopped = true
@@ -320,7 +346,9 @@ func (s *CeremonySim) PreLottery() bool {
 		ShortIdx: map[common.Address][]int{}, LongIdx: map[common.Address][]int{}, Beh: map[common.Address]*Behaviour{},
 		InBlock: map[common.Address]map[types.TxType]uint64{}, HashSeen: map[common.Address]bool{}, Salt: map[common.Address][]byte{},
 		ShortAns: map[common.Address][]byte{}, Proof: map[common.Address][]byte{}, Rnd: map[common.Address]uint64{},
-		LackFlips: map[common.Address]bool{}, Killed: map[common.Address]bool{}, NoActiv: map[common.Address]bool{}}
+		LackFlips: map[common.Address]bool{}, Killed: map[common.Address]bool{}, NoActiv: map[common.Address]bool{},
+		ShardOf: map[common.Address]common.ShardId{}, CandsBy: map[common.ShardId][]common.Address{}, FlipsBy: map[common.ShardId][][]byte{},
+		EvMarked: map[common.Address]map[common.Address]bool{}, Planted: map[common.Address]bool{}}
 	s.Plan = pl
 	dsr := int(w.Cons.DelegationSwitchRange)
 
@@ -565,7 +593,7 @@ func (s *CeremonySim) submitFlips() {
 			own := new(types.Transaction)
 			own.FromBytes(raw)
 			if err := entry.Real().Flipper.AddNewFlip(&types.Flip{Tx: own, PublicPart: pub, PrivatePart: priv}, true); err != nil {
-				s.Rep.Count("flip_refused_by_flipper", 1)
+				s.count("flip_refused_by_flipper", 1)
 				continue
 			}
 			s.Gossip(tx)
@@ -578,7 +606,7 @@ func (s *CeremonySim) submitFlips() {
 			if r.Intn(9) == 0 && !s.isNodeOwner(a.Addr) {
 				pl.Bad[key] = true
 			}
-			s.Rep.Count("flips_submitted", 1)
+			s.count("flips_submitted", 1)
 			if s.Debug {
 				s.dbgFlips[a.Addr] = append(s.dbgFlips[a.Addr], fmt.Sprintf("n%d@b%d via %s", tx.AccountNonce, s.blockNo, entry.Name))
 			}
@@ -631,6 +659,9 @@ func (s *CeremonySim) chooseBehaviour(a common.Address, id state.Identity) *Beha
 			b.Evidence = 2
 		case 3:
 			b.Evidence = 3
+		}
+		if s.EvidenceDiscipline > 0 && b.Evidence != 1 && r.Intn(100) < s.EvidenceDiscipline {
+			b.Evidence = 1
 		}
 	}
 	return b
@@ -690,31 +721,81 @@ func (s *CeremonySim) ToLottery() bool {
 	if s.OnPhase != nil {
 		s.OnPhase("lottery")
 	}
-	// read the tables from the reference replica
+	// read the tables from the reference replica: every shard has its own candidate list (the
+	// list evidence bitmaps index), its own flips and its own lottery
 	pl := s.Plan
 	vc := w.View().Real().VC
-	pl.Cands = vc.VerifCandidates(1)
-	pl.NonCands = vc.VerifNonCandidates(1)
-	pl.Flips = vc.VerifFlips(1)
-	for i, c := range pl.Cands {
-		pl.CandIdx[c] = i
-		pl.ShortIdx[c], pl.LongIdx[c] = vc.VerifFlipsToSolve(1, i)
-		pl.Beh[c] = s.chooseBehaviour(c, w.Identity(c))
+	pl.NShards = vc.VerifShards()
+	for sh := common.ShardId(1); sh <= common.ShardId(pl.NShards); sh++ {
+		cands := vc.VerifCandidates(sh)
+		pl.CandsBy[sh] = cands
+		pl.FlipsBy[sh] = vc.VerifFlips(sh)
+		pl.NonCands = append(pl.NonCands, vc.VerifNonCandidates(sh)...)
+		pl.Flips = append(pl.Flips, pl.FlipsBy[sh]...)
+		for i, c := range cands {
+			pl.Cands = append(pl.Cands, c)
+			pl.ShardOf[c] = sh
+			pl.CandIdx[c] = i
+			pl.ShortIdx[c], pl.LongIdx[c] = vc.VerifFlipsToSolve(sh, i)
+			pl.Beh[c] = s.chooseBehaviour(c, w.Identity(c))
+		}
 	}
+	s.plantUnseen()
 	return true
+}
+
+// plantUnseen (multi-shard epochs): per shard a few candidates that take part completely
+// commit their answers hash only after the short session, so that no honest evidence map of
+// their shard confirms them although hash, short and long answers are all on chain. Preferred
+// are list positions at which the OTHER shard's list holds a candidate that does commit in time.
+func (s *CeremonySim) plantUnseen() {
+	pl := s.Plan
+	if s.PlantUnseen <= 0 || pl.NShards < 2 {
+		return
+	}
+	full := func(c common.Address) bool {
+		b := pl.Beh[c]
+		return b != nil && (b.Class == "good" || b.Class == "mediocre") && !s.isNodeOwner(c) && !s.Reliable[c]
+	}
+	for sh := common.ShardId(1); sh <= common.ShardId(pl.NShards); sh++ {
+		other := pl.CandsBy[sh%common.ShardId(pl.NShards)+1]
+		n := 0
+		for pass := 0; pass < 2 && n < s.PlantUnseen; pass++ {
+			for i, c := range pl.CandsBy[sh] {
+				if n >= s.PlantUnseen || !full(c) || pl.Planted[c] {
+					continue
+				}
+				if pass == 0 {
+					if i >= len(other) {
+						continue
+					}
+					ob := pl.Beh[other[i]]
+					if ob == nil || !ob.Hash || ob.LateHash || pl.Planted[other[i]] {
+						continue
+					}
+				}
+				b := pl.Beh[c]
+				b.Class, b.LateHash = "lateHash", true
+				pl.Planted[c] = true
+				n++
+			}
+		}
+		s.count("planted_unseen_candidates", n)
+	}
 }
 
 func (s *CeremonySim) answersFor(c common.Address, idx []int, long bool) *types.Answers {
 	pl, r := s.Plan, s.R
 	b := pl.Beh[c]
+	flips := pl.FlipsBy[pl.ShardOf[c]]
 	ans := types.NewAnswers(uint(len(idx)))
 	increased := 0
 	reports := 0
 	for i, fi := range idx {
-		if len(pl.Flips) == 0 {
-			break // a ceremony without any flip: the lottery hands out placeholder indexes; answer nothing
+		if len(flips) == 0 {
+			break // a shard without any flip: the lottery hands out placeholder indexes; answer nothing
 		}
-		cid := pl.Flips[fi%len(pl.Flips)]
+		cid := flips[fi%len(flips)]
 		truth := pl.Truth[string(cid)]
 		if truth == types.None {
 			truth = types.Left // a flip the harness did not author (none expected)
@@ -838,52 +919,581 @@ func (s *CeremonySim) LongSession() bool {
 	if s.OnPhase != nil {
 		s.OnPhase("long")
 	}
+	s.chooseReorgVictims()
 	for _, k := range r.Perm(len(pl.Cands)) {
 		c := pl.Cands[k]
 		a, b := w.ByAddr[c], pl.Beh[c]
 		if a == nil || b == nil {
 			continue
 		}
+		held := 0 // kinds of answers txs this candidate's wallet hands only to the node behind the minority block
+		if s.Reorg != nil && s.Reorg.isVictim(c) {
+			held = s.Reorg.Kinds
+		}
 		if b.Hash && b.LateHash {
 			hash := crypto.Hash(append(append([]byte{}, pl.ShortAns[c]...), pl.Salt[c]...))
 			s.submit(a, types.SubmitAnswersHashTx, nil, 0, hash[:])
 		}
-		if b.Long {
-			la := s.answersFor(c, pl.LongIdx[c], true)
-			key := ecies.ImportECDSA(DeriveKey(w.Opt.Seed, "c17flipkey"+a.Name, int(pl.Epoch)))
-			s.submit(a, types.SubmitLongAnswersTx, nil, 0, attachments.CreateLongAnswerAttachment(la.Bytes(), pl.Proof[c], pl.Salt[c], key))
+		if b.Long && held&ReorgLong == 0 {
+			s.submit(a, types.SubmitLongAnswersTx, nil, 0, s.longAnswersPayload(c))
 		}
-		if b.Short {
-			rnd := pl.Rnd[c]
-			if b.WrongRnd {
-				rnd ^= 0x5a5a
-			}
-			s.submit(a, types.SubmitShortAnswersTx, nil, 0, attachments.CreateShortAnswerAttachment(pl.ShortAns[c], rnd, 1))
+		if b.Short && held&ReorgShort == 0 {
+			s.submit(a, types.SubmitShortAnswersTx, nil, 0, s.shortAnswersPayload(c))
 		}
 	}
 	if !s.steps(1, 20*time.Second) {
 		return false
 	}
-	// evidence: who was seen committing in the short session
+	// evidence: who was seen committing in the short session. A bitmap indexes the candidate list
+	// of the sender's own shard.
 	for _, k := range r.Perm(len(pl.Cands)) {
 		c := pl.Cands[k]
 		a, b := w.ByAddr[c], pl.Beh[c]
 		if a == nil || b == nil || b.Evidence == 0 {
 			continue
 		}
-		bm := common.NewBitmap(uint32(len(pl.Cands)))
-		if b.Evidence != 3 {
-			for i, x := range pl.Cands {
-				if pl.HashSeen[x] && !(b.Evidence == 2 && r.Intn(3) == 0) {
-					bm.Add(uint32(i))
+		if s.Reorg != nil && s.Reorg.isVictim(c) {
+			continue // its next nonces belong to the withheld txs
+		}
+		s.submit(a, types.EvidenceTx, nil, 0, s.evidencePayload(c)) // refused for candidates / delegators / discriminated senders: fine
+	}
+	return true
+}
+
+func (s *CeremonySim) longAnswersPayload(c common.Address) []byte {
+	w, pl := s.W, s.Plan
+	la := s.answersFor(c, pl.LongIdx[c], true)
+	key := ecies.ImportECDSA(DeriveKey(w.Opt.Seed, "c17flipkey"+w.ByAddr[c].Name, int(pl.Epoch)))
+	return attachments.CreateLongAnswerAttachment(la.Bytes(), pl.Proof[c], pl.Salt[c], key)
+}
+
+func (s *CeremonySim) shortAnswersPayload(c common.Address) []byte {
+	pl := s.Plan
+	rnd := pl.Rnd[c]
+	if pl.Beh[c].WrongRnd {
+		rnd ^= 0x5a5a
+	}
+	return attachments.CreateShortAnswerAttachment(pl.ShortAns[c], rnd, 1)
+}
+
+// evidencePayload builds c's evidence bitmap over the candidate list of c's shard and records
+// which candidates it confirms.
+func (s *CeremonySim) evidencePayload(c common.Address) []byte {
+	pl, r := s.Plan, s.R
+	b := pl.Beh[c]
+	list := pl.CandsBy[pl.ShardOf[c]]
+	bm := common.NewBitmap(uint32(len(list)))
+	marked := map[common.Address]bool{}
+	if b.Evidence != 3 {
+		for i, x := range list {
+			if pl.HashSeen[x] && !(b.Evidence == 2 && r.Intn(3) == 0) {
+				bm.Add(uint32(i))
+				marked[x] = true
+			}
+		}
+	}
+	pl.EvMarked[c] = marked
+	buf := new(bytes.Buffer)
+	bm.WriteTo(buf)
+	return buf.Bytes()
+}
+
+// ------------------------------------------------------------------ reorganisation that drops answers
+
+const (
+	ReorgLong  = 1
+	ReorgShort = 2
+)
+
+// ReorgPlan describes one "minority block" history of an epoch. Some candidates' wallets hand
+// their short and/or long answers tx to one node only. Late in the long session (or early in
+// the after-long period), when no other answers tx is waiting anywhere, that node (Proposer)
+// proposes a block with them. Only the Targets get it; the rest of the network agrees on
+// other blocks for that height and the next one, without those txs. The Targets then learn of
+// the longer certified chain and switch to it the way a node does: the real fork resolver
+// (processBlocks -> ValidateSubChain, ApplyFork -> Blockchain.ResetTo, which publishes
+// BlockchainResetEvent with the reverted txs, then AddBlock of the fork blocks), followed by
+// what consensus.Engine does with the result (reverted txs are offered to the own mempool).
+// Returns=false: the txs never reach a proposer again (the reorganised observers do not
+// propose), so the canonical chain all replicas end on has no such answers. Returns=true:
+// a proposing node is among the targets; the txs sit in its pool again and it includes them.
+type ReorgPlan struct {
+	Phase               string // "long" / "afterlong": earliest period for the minority block
+	Kinds               int    // ReorgLong | ReorgShort: which answers txs the victims withhold from the network
+	NVictims            int
+	Targets             []*Replica
+	Proposer            *Replica // harness-fed observer that may propose: builds the minority block, does not insert it
+	Returns             bool
+	ReturnNode          *Replica // the proposing node among the targets (Returns only)
+	RestartDelay        int      // blocks the latest restart of a reorganised replica waits after the fork switch
+	Late                bool     // the targets stay cut off until the network has finished the validation: their fork contains the validation-finishing block
+	CutOff              map[*Replica]bool
+	LateRefused         map[*Replica]error
+	LateAnswer          *ForkAnswer        // the peer's answer to the fork request of the late targets
+	MinorityCeremonyTxs int                // ceremony txs in the minority block
+	LateRefusedAgain    map[*Replica]error // ... and again after a restart of the replica
+	LateNames           map[string]bool    // names of the replicas that were cut off until after the validation
+	lateSeen            []*Replica
+	// results
+	Victims        []common.Address
+	Done           bool                                     // the minority block was tried
+	Happened       bool                                     // ... and at least one target reorganised away from it
+	Period         string                                   // period in which it happened
+	Reorganised    []*Replica                               // targets that went through ResetTo + fork blocks
+	Reverted       map[common.Address]map[types.TxType]bool // answers / evidence txs handed back by ResetTo, by sender
+	MinorityHeight uint64
+}
+
+func (rp *ReorgPlan) noteReverted(reverted []*types.Transaction) {
+	for _, tx := range reverted {
+		if _, ok := types.CeremonialTxs[tx.Type]; ok {
+			a := senderOf(tx)
+			if rp.Reverted[a] == nil {
+				rp.Reverted[a] = map[types.TxType]bool{}
+			}
+			rp.Reverted[a][tx.Type] = true
+		}
+	}
+}
+
+func (rp *ReorgPlan) isVictim(c common.Address) bool {
+	for _, v := range rp.Victims {
+		if v == c {
+			return true
+		}
+	}
+	return false
+}
+
+// chooseReorgVictims picks fully participating candidates whose answers matter.
+func (s *CeremonySim) chooseReorgVictims() {
+	rp, pl := s.Reorg, s.Plan
+	if rp == nil || rp.Kinds == 0 {
+		return
+	}
+	chain := map[common.Address]bool{}
+	for _, c := range pl.Chain3 {
+		chain[c] = true
+	}
+	var pool []common.Address
+	for _, c := range pl.Cands {
+		b := pl.Beh[c]
+		if b == nil || s.W.ByAddr[c] == nil || s.isNodeOwner(c) || chain[c] || s.Reliable[c] || pl.Planted[c] {
+			continue
+		}
+		if b.Hash && !b.LateHash && b.Short && b.Long && !b.WrongSalt && !b.WrongRnd && b.Accuracy > 0.9 {
+			pool = append(pool, c)
+		}
+	}
+	for _, k := range s.R.Perm(len(pool)) {
+		if len(rp.Victims) >= rp.NVictims {
+			break
+		}
+		rp.Victims = append(rp.Victims, pool[k])
+	}
+	s.count("answers_reorg_victims_chosen", len(rp.Victims))
+}
+
+func isAnswersTx(t types.TxType) bool {
+	return t == types.SubmitShortAnswersTx || t == types.SubmitLongAnswersTx
+}
+
+// reorgReady: the minority block is only tried when no other answers tx is under way (in a
+// pool or on the wire) and the validation cannot finish before the history is played.
+func (s *CeremonySim) reorgReady() bool {
+	rp, w := s.Reorg, s.W
+	if rp == nil || rp.Done || len(rp.Victims) == 0 && rp.Kinds != 0 {
+		return false
+	}
+	st := w.View().AppState.State
+	per := st.ValidationPeriod()
+	if per != state.LongSessionPeriod && per != state.AfterLongSessionPeriod {
+		return false
+	}
+	if rp.Phase == "afterlong" && per != state.AfterLongSessionPeriod {
+		return false
+	}
+	if per == state.AfterLongSessionPeriod {
+		n := int(st.ShardsNum())
+		eb := st.EmptyBlocksByShard()
+		minLen := 1 << 30
+		for sh := 1; sh <= n; sh++ {
+			if l := len(eb[common.ShardId(sh)]); l < minLen {
+				minLen = l
+			}
+		}
+		room := minInt(state.AfterLongRequiredBlocks-minLen, state.AfterLongRequiredBlocks*2*n-int(st.BlocksCntWithoutCeremonialTxs()))
+		if rp.Late {
+			// the minority block competes for the LAST slot before the validation-finishing block: a peer
+			// answers a fork request with one block more than the asker's own branch has, so the answer
+			// to a one-block branch reaches the validation-finishing block only from here
+			if room != 1 {
+				return false
+			}
+		} else if room < 2+rp.RestartDelay {
+			// two canonical blocks while the targets are cut off, plus the blocks a delayed restart waits
+			// (a ceremony after the first starts its after-long period with one block already counted)
+			if s.Debug {
+				s.count(fmt.Sprintf("dbg_reorg_no_room_minLen%d_cnt%d", minLen, st.BlocksCntWithoutCeremonialTxs()), 1)
+			}
+			return false
+		}
+	}
+	for _, r := range w.Replicas {
+		if !r.Alive {
+			continue
+		}
+		for _, tx := range r.TxPool.VerifAll() {
+			if isAnswersTx(tx.Type) {
+				if s.Debug {
+					s.count("dbg_reorg_not_quiet_pool_"+r.Name+"_"+rp.Phase, 1)
+				}
+				return false
+			}
+		}
+		for _, d := range s.queues[r] {
+			tx := new(types.Transaction)
+			if tx.FromBytes(d.raw) == nil && isAnswersTx(tx.Type) {
+				return false
+			}
+		}
+	}
+	return true
+}
+
+// answersReorg plays the history described at ReorgPlan.
+func (s *CeremonySim) answersReorg() {
+	w, pl, rp := s.W, s.Plan, s.Reorg
+	rp.Done = true
+	st := w.View().AppState.State
+	p := rp.Proposer
+	if p == nil || !p.Alive || !p.CanPropose() {
+		s.count("answers_reorg_skipped_no_minority_proposer", 1)
+		return
+	}
+	after := st.ValidationPeriod() == state.AfterLongSessionPeriod
+	rp.Period = "long"
+	txType := validation.InboundTx
+	if after {
+		// an answers tx that reached a pool during the long session stays valid there (only NEW arrivals are late)
+		rp.Period, txType = "afterlong", validation.MempoolTx
+	}
+	// the withheld txs: consecutive nonces per victim, built on the canonical head
+	var held []*types.Transaction
+	for _, v := range rp.Victims {
+		a := w.ByAddr[v]
+		if w.NextNonce(a) != w.StateNonce(a) {
+			s.count("answers_reorg_victim_skipped_pending_txs", 1)
+			continue
+		}
+		var specs []struct {
+			t types.TxType
+			p []byte
+		}
+		add := func(t types.TxType, p []byte) {
+			specs = append(specs, struct {
+				t types.TxType
+				p []byte
+			}{t, p})
+		}
+		if rp.Kinds&ReorgLong != 0 {
+			add(types.SubmitLongAnswersTx, s.longAnswersPayload(v))
+		}
+		if rp.Kinds&ReorgShort != 0 {
+			add(types.SubmitShortAnswersTx, s.shortAnswersPayload(v))
+		}
+		if b := pl.Beh[v]; b.Evidence != 0 {
+			add(types.EvidenceTx, s.evidencePayload(v)) // accepted only from senders that may give evidence
+		}
+		for i, sp := range specs {
+			tx := w.Tx(a, sp.t, nil, nil, sp.p)
+			if i > 0 {
+				tx = SignedTx(a, sp.t, nil, nil, tx.MaxFee, nil, tx.AccountNonce+uint32(i), tx.Epoch, sp.p)
+			}
+			held = append(held, tx)
+		}
+	}
+	if rp.Kinds == 0 && len(w.Accounts) > 1 {
+		// control history: the minority block differs from the canonical one only by a plain payment
+		to := w.God.Addr
+		held = append(held, w.Tx(w.Accounts[1], types.SendTx, &to, Dna(1), nil))
+		txType = validation.InboundTx
+	}
+	p.enter()
+	for _, tx := range held {
+		raw, _ := tx.ToBytes()
+		own := new(types.Transaction)
+		own.FromBytes(raw)
+		if err := p.TxPool.AddExternalTxs(txType, own); err != nil && s.Debug {
+			s.count("dbg_minority_pool_"+TxName(tx.Type)+"_"+ErrClass(err), 1)
+		}
+	}
+	now := w.Now()
+	if ht := w.HeadTime(); now.Before(ht) {
+		now = ht
+	}
+	setClock(now.Add(19 * time.Second))
+	prop := w.Propose(p)
+	for _, tx := range p.TxPool.VerifAll() {
+		p.TxPool.Remove(tx)
+	}
+	mb := prop.Block
+	nAns := 0
+	for _, tx := range mb.Body.Transactions {
+		if isAnswersTx(tx.Type) {
+			nAns++
+		}
+	}
+	for _, tx := range mb.Body.Transactions {
+		if _, ok := types.CeremonialTxs[tx.Type]; ok {
+			rp.MinorityCeremonyTxs++
+		}
+	}
+	if nAns == 0 && rp.Kinds != 0 || len(mb.Body.Transactions) == 0 || mb.Header.Flags().HasFlag(types.ValidationFinished) {
+		s.count("answers_reorg_skipped_minority_block_without_answers", 1)
+		return
+	}
+	rp.MinorityHeight = mb.Height()
+	var seen []*Replica
+	for _, r := range rp.Targets {
+		if !r.Alive {
+			continue
+		}
+		if err := r.Receive(prop); err != nil {
+			s.Rep.Violation("block-refused-in-real-epoch:minority-block:"+BlockKind(mb)+":"+ErrClass(err),
+				fmt.Sprintf("block %d (%s) proposed by %s with withheld answers txs is refused by %s: %v", mb.Height(), BlockKind(mb), p.Name, r.Name, err),
+				map[string]interface{}{"block": DescribeBlock(mb)})
+			continue
+		}
+		seen = append(seen, r)
+	}
+	if len(seen) == 0 {
+		return
+	}
+	s.count("answers_reorg_minority_blocks", 1)
+	s.count("answers_reorg_minority_block_answers_txs", nAns)
+	// the targets are cut off; everybody else goes on with other blocks
+	rp.CutOff = map[*Replica]bool{}
+	for _, r := range seen {
+		r.Alive = false
+		rp.CutOff[r] = true
+	}
+	if rp.Late {
+		// the partition outlasts the validation: the targets come back after the validation-finishing block
+		rp.lateSeen = seen
+		rp.LateNames = map[string]bool{}
+		for _, r := range seen {
+			rp.LateNames[r.Name] = true
+		}
+		s.count("answers_reorg_late_partitions", 1)
+		return
+	}
+	var canon []*types.Block
+	for i := 0; i < 2 && !s.Stopped; i++ {
+		dt := 20 * time.Second
+		if i == 0 {
+			dt = time.Second // competes with the minority block for the same slot
+		}
+		res := s.Step(dt)
+		if s.Stopped || res == nil {
+			return
+		}
+		canon = append(canon, res.Block)
+		if res.Block.Header.Flags().HasFlag(types.ValidationFinished) {
+			s.Rep.Note("validation finished while replicas were on a minority branch (harness: room check failed)")
+			s.Stopped = true
+			return
+		}
+	}
+	// the partition heals: fork resolution
+	rp.Reverted = map[common.Address]map[types.TxType]bool{}
+	for _, r := range seen {
+		r.Alive = true
+		delete(rp.CutOff, r)
+		fa, err := s.adoptFork(r)
+		if err != nil {
+			r.Alive = false // cannot follow any more; the world goes on without it
+			s.count("answers_reorg_fork_not_adopted", 1)
+			s.forkRefused(r, fa, err)
+			continue
+		}
+		rp.Reorganised = append(rp.Reorganised, r)
+		s.count(fmt.Sprintf("fork_answers_of_%d_blocks", len(fa.Blocks)), 1)
+		rp.noteReverted(fa.Reverted)
+	}
+	if len(rp.Reorganised) == 0 {
+		return
+	}
+	rp.Happened = true
+	s.count("answers_reorgs", 1)
+	s.count("answers_reorgs_in_"+rp.Period, 1)
+	s.count("answers_reorg_replicas_reorganised", len(rp.Reorganised))
+	if rp.Returns && rp.ReturnNode != nil && rp.ReturnNode.Alive {
+		s.forceProposer = rp.ReturnNode // its pool holds the reverted txs again
+	}
+	if s.OnReorged != nil {
+		s.OnReorged(rp)
+	}
+}
+
+// forkRefused: a replica does not switch from its one-block minority branch to the longer,
+// certified chain everybody else is on.
+func (s *CeremonySim) forkRefused(r *Replica, fa *ForkAnswer, err error) {
+	if strings.HasPrefix(err.Error(), "harness:") {
+		s.Rep.Note("answers reorg: %v", err)
+		return
+	}
+	from, to := uint64(0), uint64(0)
+	if len(fa.Blocks) > 0 {
+		from, to = fa.Blocks[0].Height(), fa.Blocks[len(fa.Blocks)-1].Height()
+	}
+	s.Rep.Violation("canonical-chain-refused-after-minority-block:"+ForkErrClass(err),
+		fmt.Sprintf("%s had inserted a block that the network did not adopt; a peer on the canonical chain answers its fork request with the %d certified blocks %d..%d; %s does not get onto the canonical chain: %v",
+			r.Name, len(fa.Blocks), from, to, r.Name, err), nil)
+}
+
+// ForkErrClass is ErrClass without the peer id the resolver puts into its messages.
+func ForkErrClass(err error) string {
+	t := err.Error()
+	if i := strings.Index(t, "err="); i >= 0 {
+		t = t[i+4:]
+	}
+	return ErrClass(fmt.Errorf("%s", t))
+}
+
+// ForkAnswer is what a canonical peer answers to r's fork request, and what became of it.
+type ForkAnswer struct {
+	Blocks       []*types.Block
+	HasFinal     bool // contains a validation-finishing block
+	CeremonyTxs  int  // ceremony txs in the blocks below the validation-finishing block (all blocks if there is none)
+	Reverted     []*types.Transaction
+	SyncedBlocks int // blocks taken over by ordinary block-by-block sync after the switch
+}
+
+// adoptFork moves r from its minority branch to the canonical chain the way a node does it:
+// r's top block hashes go to a peer that is on the canonical chain (the reference replica),
+// whose real Blockchain.ReadBlockForForkedPeer answers with the blocks above the common
+// ancestor - one more than r has on its own branch - and their certificates; r's real fork
+// resolver checks them (processBlocks -> ValidateSubChain) and applies them (ApplyFork =
+// ResetTo, which publishes BlockchainResetEvent with the reverted txs, + AddBlock); the
+// reverted txs are offered to the own mempool as consensus.Engine does; what the peer has
+// beyond the answer arrives by ordinary sync (AddBlock one by one).
+func (s *CeremonySim) adoptFork(r *Replica) (*ForkAnswer, error) {
+	w := s.W
+	peer := w.View()
+	r.enter()
+	own := r.Chain.GetTopBlockHashes(100)
+	peer.enter()
+	fork := peer.Chain.ReadBlockForForkedPeer(own)
+	fa := &ForkAnswer{}
+	if len(fork) == 0 {
+		return fa, fmt.Errorf("harness: the peer has no fork answer")
+	}
+	for _, bb := range fork {
+		fa.Blocks = append(fa.Blocks, bb.Block)
+		if bb.Block.Header.Flags().HasFlag(types.ValidationFinished) {
+			fa.HasFinal = true
+		}
+		if !fa.HasFinal {
+			for _, tx := range bb.Block.Body.Transactions {
+				if _, ok := types.CeremonialTxs[tx.Type]; ok {
+					fa.CeremonyTxs++
 				}
 			}
 		}
-		buf := new(bytes.Buffer)
-		bm.WriteTo(buf)
-		s.submit(a, types.EvidenceTx, nil, 0, buf.Bytes()) // refused for candidates / delegators / discriminated senders: fine
 	}
-	return true
+	if fork[len(fork)-1].Cert.Empty() {
+		return fa, fmt.Errorf("harness: no quorum certificate for the fork tip")
+	}
+	r.enter()
+	res := consensus.NewForkResolver(nil, nil, r.Chain, r.Stats)
+	if err := res.VerifProcessBlocks(fork); err != nil {
+		return fa, fmt.Errorf("processBlocks: %w", err)
+	}
+	if !res.HasLoadedFork() {
+		return fa, fmt.Errorf("processBlocks: no applicable fork")
+	}
+	reverted, err := res.ApplyFork()
+	if err != nil {
+		return fa, fmt.Errorf("ApplyFork: %w", err)
+	}
+	fa.Reverted = reverted
+	for _, b := range fa.Blocks {
+		r.addCert(b)
+	}
+	if len(reverted) > 0 {
+		r.TxPool.AddExternalTxs(validation.MempoolTx, reverted...)
+	}
+	for r.Head().Height() < peer.Head().Height() {
+		b := peer.Chain.GetBlockByHeight(r.Head().Height() + 1)
+		if b == nil {
+			return fa, fmt.Errorf("harness: the peer has no block %d", r.Head().Height()+1)
+		}
+		if err := r.AddBlock(b); err != nil {
+			return fa, fmt.Errorf("sync after the fork switch, block %d: %w", b.Height(), err)
+		}
+		fa.SyncedBlocks++
+	}
+	if r.Head().Hash() != peer.Head().Hash() {
+		return fa, fmt.Errorf("not on the canonical head after the fork switch")
+	}
+	return fa, nil
+}
+
+// Resync wipes a replica and lets it synchronise the canonical chain from genesis block by
+// block (what an operator does with a node that cannot follow any more).
+func (s *CeremonySim) Resync(r *Replica) error {
+	w := s.W
+	r.Alive = false
+	r.DB = dbm.NewMemDB()
+	if err := r.boot(); err != nil {
+		r.Alive = false
+		return err
+	}
+	for _, b := range w.Blocks {
+		if err := r.AddBlock(b); err != nil {
+			r.Alive = false
+			return fmt.Errorf("block %d: %w", b.Height(), err)
+		}
+		if b.Header.Flags().HasFlag(types.FlipLotteryStarted) && r.Real() != nil && !r.Real().WaitLottery(20*time.Second) {
+			r.Alive = false
+			return fmt.Errorf("flip lottery calculation did not finish")
+		}
+	}
+	return nil
+}
+
+// lateRejoin: the targets of a Late history come back after the network finished the validation.
+func (s *CeremonySim) lateRejoin() {
+	rp := s.Reorg
+	if rp == nil || !rp.Late || len(rp.lateSeen) == 0 {
+		return
+	}
+	rp.Reverted = map[common.Address]map[types.TxType]bool{}
+	rp.LateRefused, rp.LateRefusedAgain = map[*Replica]error{}, map[*Replica]error{}
+	for _, r := range rp.lateSeen {
+		r.Alive = true
+		delete(rp.CutOff, r)
+		fa, err := s.adoptFork(r)
+		rp.LateAnswer = fa
+		if err != nil {
+			rp.LateRefused[r] = err
+			// does a restart (ceremony state rebuilt from the database) help?
+			if e := r.Restart(); e == nil {
+				if fa, err = s.adoptFork(r); err != nil {
+					rp.LateRefusedAgain[r] = err
+				}
+			}
+		}
+		if err != nil {
+			r.Alive = false
+			continue
+		}
+		rp.Reorganised = append(rp.Reorganised, r)
+		rp.noteReverted(fa.Reverted)
+	}
+	rp.lateSeen = nil
+	rp.Happened = true
 }
 
 // Finish produces blocks through the after-long period until the validation-finishing block
@@ -900,6 +1510,13 @@ func (s *CeremonySim) Finish() *types.Block {
 				s.OnPhase("afterlong")
 			}
 		}
+		if s.reorgReady() {
+			s.answersReorg()
+			if s.Stopped {
+				return nil
+			}
+			continue
+		}
 		res := s.Step(20 * time.Second)
 		if s.Stopped || res == nil {
 			return nil
@@ -909,6 +1526,7 @@ func (s *CeremonySim) Finish() *types.Block {
 				s.Rep.Note("validation finished but epoch did not advance")
 			}
 			s.EpochNo++
+			s.lateRejoin()
 			return res.Block
 		}
 	}
@@ -928,7 +1546,13 @@ func (pl *EpochPlan) Describe() map[string]interface{} {
 	for _, b := range pl.Beh {
 		cls[b.Class]++
 	}
+	var byShard, flipsByShard []int
+	for sh := common.ShardId(1); sh <= common.ShardId(pl.NShards); sh++ {
+		byShard = append(byShard, len(pl.CandsBy[sh]))
+		flipsByShard = append(flipsByShard, len(pl.FlipsBy[sh]))
+	}
 	return map[string]interface{}{"epoch": pl.Epoch, "candidates": len(pl.Cands), "non_candidates": len(pl.NonCands), "flips": len(pl.Flips),
+		"shards": pl.NShards, "candidates_by_shard": byShard, "flips_by_shard": flipsByShard, "planted_late_committers": len(pl.Planted),
 		"behaviours": cls, "transitive_chain_links": maxInt(len(pl.Chain3)-1, 0), "invites": len(pl.Invites), "unactivated": len(pl.NoActiv)}
 }
 
